@@ -126,6 +126,8 @@ def hstep (st : HState K V) : HOp K V → HState K V × Out K V
   | .addlistAbort _ _ => (st, .abort)
   | .updateAbort l => (⟨replaceBy st.s l, st.t⟩, .abort)
   | .updateExtendAbort l => (⟨st.s ++ l, st.t⟩, .abort)
+  | .updateMapAbort l => (⟨setAll st.s l, st.t⟩, .abort)
+  | .rejected => (st, .abort)
   | .copyToT => (⟨st.s, st.s⟩, .unit)
   | .copyToS => (st, .unit)
   | .swap => (⟨st.t, st.s⟩, .unit)
